@@ -33,7 +33,7 @@ NS_CHOICES = ["http://ex.org/", "http://ex.org/ns/", "http://other.org/v#", RDF,
 
 @st.composite
 def cases(draw):
-    g = draw(gg.general(inst_props=(RDF_TYPE, RDF_TYPE, RDF_TYPE, "http://ex.org/isA"), iri_like_literals=draw(st.integers(0, 3)) == 0, hash_props=draw(st.booleans()), quirks=draw(gg.quirk_set(one_in=4))))
+    g = draw(gg.general(inst_props=(RDF_TYPE, RDF_TYPE, RDF_TYPE, "http://ex.org/isA"), iri_like_literals=draw(st.integers(0, 3)) == 0, hash_props=draw(st.booleans()), bnode_classes=True, quirks=draw(gg.quirk_set(one_in=4))))
     cfg = draw(gg.switches())
     cfg["instances_report_mode"] = "mixed"
     target = draw(common.target_spec(g))
@@ -48,7 +48,10 @@ def cases(draw):
         case["ignore"] = draw(st.lists(st.sampled_from(NS_CHOICES), min_size=1, max_size=3, unique=True))
     # the restriction options are applied behind the reader: they must hold whatever channel delivers the document
     # (cap: only readers that keep the document order; namespaces: also an in-memory rdflib Graph)
-    case["chan"] = draw(st.sampled_from(common.LINE_CHANNELS + (["rdflib", "rdflib"] if mode == "ns" else [])))
+    # (an rdflib Graph names a blank-node class 'c0', the line-based readers '_:c0': the shape label differs by channel, which is
+    # not this property's business - blank-node classes stay on the line-based channels)
+    has_bclass = any(c.startswith("_:") for c in g["classes"])
+    case["chan"] = draw(st.sampled_from(common.LINE_CHANNELS + (["rdflib", "rdflib"] if (mode == "ns" and not has_bclass) else [])))
     if mode == "cap" and draw(st.integers(0, 3)) == 0:
         dd = draw(common.dups(g, type_only=True))
         if dd and not common.restated_values(dict(case, dups=dd)):
